@@ -55,11 +55,51 @@ fn apply_caught(block: &mut Block, rules: &[Box<dyn Rule>], code: &str) -> Resul
     std::panic::catch_unwind(std::panic::AssertUnwindSafe(|| exec::apply_rules(block, rules, code))).map_err(|_| ())
 }
 
+thread_local! {
+    static LIT_CACHE: std::cell::RefCell<crate::srclit::LitCache> = std::cell::RefCell::new(Default::default());
+    static LIT_REPORTED: std::cell::RefCell<std::collections::HashSet<(String, String)>> = std::cell::RefCell::new(Default::default());
+}
+
+/// The ORIGINAL program as its SOURCE TEXT denotes it: parsed by darklua, with the value of every string /
+/// number / interpolated-segment token replaced by the independent decoding of the token text
+/// (`srclit`, the Lean reference decoder of C13). `None`: the text does not parse.
+fn independent_original(model: &mut Model, code: &str) -> Option<(Block, crate::srclit::LitReport)> {
+    LIT_CACHE.with(|cache| crate::srclit::independent_block(model, &mut cache.borrow_mut(), code).ok())
+}
+
+/// token-text → value check of darklua's parser on this program; one violation per distinct token text
+fn check_literals(r: &mut Report, code: &str, origin: &str, lit: &crate::srclit::LitReport) {
+    r.count("source_literals_checked", (lit.strings + lit.numbers + lit.segments) as u64);
+    if lit.undecided > 0 {
+        r.count("source_literals_reference_undecided", lit.undecided as u64);
+    }
+    for m in &lit.mismatches {
+        let fresh = LIT_REPORTED.with(|s| s.borrow_mut().insert((m.kind.to_owned(), m.token_text.clone())));
+        if !fresh {
+            continue;
+        }
+        // the smallest failing input: the token alone
+        let minimal = format!("return {}\n", if m.kind == "interp" { format!("`{}`", m.token_text) } else { m.token_text.clone() });
+        r.violation(Violation {
+            kind: "oracle".into(),
+            check: format!("source-literal:{}", m.kind),
+            what: "parser decoded literal wrongly: the value darklua computed for a literal token differs from what its text denotes (independent reference decoder); every later stage (rules, generators) works on the wrong value".into(),
+            input: json!({"code": minimal, "found_in": code, "origin": origin, "token_text": m.token_text,
+                "darklua_value": m.darklua_value, "reference_value": m.reference_value}),
+            failing_input_found: true,
+        });
+    }
+}
+
 /// Does the REAL rule list break behaviour on this program, with every step inside `H`?
 /// Returns (original outcome, transformed outcome, transformed tree).
 fn oracle_fails_inside(model: &mut Model, names: &[&str], code: &str) -> Option<(String, String, String)> {
     let block0 = exec::parse(code).ok()?;
-    let o0 = exec::run_block(model, rulecheck::LEVEL, &block0);
+    // the original runs with the values its source text denotes
+    let o0 = match independent_original(model, code) {
+        Some((blocki, lit)) if !lit.mismatches.is_empty() => exec::run_block(model, rulecheck::LEVEL, &blocki),
+        _ => exec::run_block(model, rulecheck::LEVEL, &block0),
+    };
     if !exec::outcome_ok(&o0) {
         return None;
     }
@@ -119,7 +159,16 @@ pub fn check_rules(model: &mut Model, r: &mut Report, modelled: &[String], progr
         }
     };
     let sexp0 = crate::astsexp::block_to_sexp(&block0);
-    let o0 = exec::run_block(model, rulecheck::LEVEL, &block0);
+    // source-text leg: every literal token decoded independently of darklua's parser; the reference run of the
+    // ORIGINAL uses the independently decoded values (identical to darklua's unless a mismatch is reported)
+    let independent = independent_original(model, code);
+    if let Some((_, lit)) = &independent {
+        check_literals(r, code, program.origin, lit);
+    }
+    let o0 = match &independent {
+        Some((blocki, lit)) if !lit.mismatches.is_empty() => exec::run_block(model, rulecheck::LEVEL, blocki),
+        _ => exec::run_block(model, rulecheck::LEVEL, &block0),
+    };
     let original_ok = exec::outcome_ok(&o0);
     r.hist("original_run", if original_ok { "error-free" } else if o0 == "timeout" { "timeout" } else { "error (correspondence only)" });
     for rule in rule_names {
@@ -161,7 +210,8 @@ pub fn check_rules(model: &mut Model, r: &mut Report, modelled: &[String], progr
                     r.violation(Violation {
                         kind: "oracle".into(),
                         check: format!("{}:behaviour", rule),
-                        what: format!("rule {} changes the behaviour of a program whose original run is error-free (inside the hypothesis of its theorem)", rule),
+                        what: format!("rule {} changes the behaviour of a program whose original run is error-free (inside the hypothesis of its theorem){}", rule,
+                            if independent.as_ref().map_or(false, |(_, lit)| !lit.mismatches.is_empty()) { " — NOTE: darklua's parser decoded a literal of this program wrongly (see the source-literal violation); the original was run with the values its source text denotes, so the difference may be the parser's, not the rule's" } else { "" }),
                         input: json!({"rules": [rule], "code": small, "origin": program.origin,
                             "original_outcome": detail.as_ref().map(|d| d.0.clone()),
                             "transformed_outcome": detail.as_ref().map(|d| d.1.clone()),
@@ -302,6 +352,13 @@ fn end_to_end(model: &mut Model, report: &mut Report, code: &str, rules: &[&str]
     }
     let output = resources.get("src/main.lua").unwrap();
     let block0 = match exec::parse(code) { Ok(b) => b, Err(_) => return };
+    let block0 = match independent_original(model, code) {
+        Some((blocki, lit)) => {
+            check_literals(report, code, "e2e", &lit);
+            if lit.mismatches.is_empty() { block0 } else { blocki }
+        }
+        None => block0,
+    };
     let block1 = match exec::parse(&output) {
         Ok(b) => b,
         Err(e) => {
@@ -400,7 +457,7 @@ pub fn run(report: &mut Report, replay: Option<&str>) {
         default rules alone (real Rule::process; tree compared with the Lean model; original and output executed on the Lean \
         reference semantics when the program is inside the hypothesis H of the rule's theorem), plus the default list and a random \
         subset in random order end-to-end through darklua_core::process with each generator. Non-trivial = the rule changed the tree; \
-        distinct by (rule, program text)."
+        distinct by (rule, program text). Source-text leg: every string / number / interpolated-segment TOKEN of every original program is decoded by the independent reference decoder (C13 Spec, Luau) and compared with the value darklua's parser computed; the reference run of the original uses the independently decoded values."
         .to_owned();
     let seed = report.seed;
     {
